@@ -639,6 +639,11 @@ QuietOK == PreQuiet => (Pr!QuietClause(QRecord, LastStim) = "ok" /\ ~Spurious)
 \* the same object connects again
 ReconnectOK == PostQuiet => Pr!EpilogueClause(IF Pr!Has(words[NAtt], "connected") THEN 1 ELSE 0) = "ok"
 NoThreadDies == g.dead = {}
+\* single clauses of HistoryOK / search targets (used to obtain the schedule that exposes ONE code site; the verdict
+\* on the real code always comes from the monitor)
+CloseCallsOK == viol # "CloseOneDisconnected"
+NoEarlyConnected == viol # "ConnectedBeforeTables"
+NoLeakedSendLock == ~(PreQuiet /\ g.lock # "free" /\ viol = "ok" /\ g.dead = {})
 \* search target (not a clause of C02; used to obtain a schedule that is then run against the real code and judged by
 \* the monitor): a thread joins the ping thread while it holds _send_lock and the ping thread waits for that lock
 NoJoinUnderSendLock ==
